@@ -33,6 +33,13 @@ def make_tree(rnd, profile, modes=None):
                 for _ in range(rnd.choice([1, 2, 2, 3])):
                     chain = ('e', rnd.choice(['div', 'span', 'section']), {}, ([('t', 'lead')] if rnd.random() < 0.4 else []) + [chain])
                 body = body + [('e', 'div', {'class': 'wrap'}, [chain, ('t', rnd.choice(['after', 'trail'])), ('e', 'b', {}, [('t', 'more')])])]
+        if profile in ('core', 'contains') and rnd.random() < 0.3:
+            # elements whose text bs4 keeps in string-container subclasses (Script, Stylesheet, TemplateString, RubyTextString):
+            # it is character data like any other text
+            special = [('e', 'script', {}, [('t', rnd.choice(['var x = 1;', ' ', 'x']))]), ('e', 'style', {}, [('t', 'p { }')]),
+                       ('e', 'ruby', {}, [('t', 'kan'), ('e', 'rt', {}, [('t', rnd.choice(['ji', ' ']))]), ('e', 'rp', {}, [('t', ')')])]),
+                       ('e', 'template', {}, [('t', 'tpl')]), ('e', 'script', {}, []), ('e', 'style', {}, [('t', '\n')]), ('e', 'rt', {}, [])]
+            body += rnd.sample(special, rnd.randint(1, 3))
         if rnd.random() < 0.35:
             # the SAME subtree (equal markup: bs4 tags compare and hash equal) in two different ancestor contexts
             shared = tg.generic(2)
@@ -173,6 +180,14 @@ def build(rnd, profile, n_trees, sels_per_tree, feats=None, depth=2, ast=True, l
                 ts = [str(t_).strip() for t_ in fr.descendants if isinstance(t_, _bs4.NavigableString) and type(t_) is _bs4.NavigableString and str(t_).strip()]
                 if ts:
                     inner_texts.append(rnd.choice(ts)[:12])
+            # the empty search string is contained in every text, the empty text included
+            for own, vals in ((False, ['']), (True, ['']), (False, ['zzz-nowhere', ''])):
+                a = [[{'ids': [], 'classes': [], 'attrs': [], 'pseudos': [('contains', own, vals)]}]]
+                s = gen_selectors.show_list(a)
+                if s not in sc.meta and rnd.random() < 0.5:
+                    ops = [('select', (), 0)] + [('match', sc.path_of[id(e)]) for e in sc.elements] if all_match else std_ops(rnd, sc, light)
+                    sc.add(s, ops, namespaces=nsmap)
+                    sc.meta[s] = a
             for txt in inner_texts[:2]:
                 for own in (False, True):
                     a = [[{'ids': [], 'classes': [], 'attrs': [], 'pseudos': [('contains', own, [txt])]}]]
